@@ -49,6 +49,32 @@ def run(check):
         os_ = pv.origins(f, idx)
         bad = []
         good = []
+        calls_ = sorted(r[1].split("::")[-1] for r, p_ in os_ if r[0] == "call")
+        if calls_ == ["len", "position"] and len(os_) == 2:
+            # iter().position(|s| !s.can_precede_directive()).unwrap_or(list.len())
+            okp = True
+            srcs = []
+            for r, p_ in os_:
+                g = prog.by_def[r[2]]
+                node = g.by_id(r[3])
+                if r[1].split("::")[-1] == "position":
+                    src, chain = _chain(node)
+                    names = [c[0] for c in chain]
+                    cl = [a for a in chain[-1][1]["args"] if hir.peel(a).get("k") == "Closure"] if chain else []
+                    body = hir.peel(hir.peel(cl[0])["body"]) if cl else {}
+                    neg = body.get("k") == "Unary" and body.get("op") == "Not"
+                    pc = _pred_callees(cl[0]) if cl else set()
+                    okp = okp and names == ["iter", "position"] and neg and pc == {"can_precede_directive"}
+                    srcs.append(hir.place(src))
+                    preds_seen[role] = tuple(sorted(pc))
+                else:
+                    srcs.append(hir.place(hir.call_args(node)[0]))
+            same_src = len(set(srcs)) == 1 and srcs[0] is not None
+            if okp and same_src:
+                check.ok(R, key, hir.loc(n), "index = position of the first statement that cannot precede a directive (or the length)")
+            else:
+                check.bad(R, key, hir.loc(n), "insertion index computed by an unrecognised position/len combination over %s" % srcs)
+            continue
         for o in os_:
             root, proj = o
             if root[0] == "lit":
